@@ -332,9 +332,17 @@ func hostileStreams(tier string, seed uint64, originAddr string) []stream {
 				}
 			}
 		}
-		l := []string{"plain", "mitm"}[r.Intn(2)]
 		end := []string{"fin", "rst"}[r.Intn(2)]
-		add(fmt.Sprintf("mutant-%d", i), l, end, bs)
+		switch r.Intn(4) {
+		case 0:
+			add(fmt.Sprintf("mutant-%d", i), "plain", end, bs)
+		case 1:
+			add(fmt.Sprintf("mutant-%d", i), "mitm", end, bs)
+		case 2: // inside a TLS session with the TLS listener
+			ss = append(ss, stream{name: fmt.Sprintf("mutant-%d", i), listener: "tls", viaTLS: true, end: "fin", chunks: [][]byte{bs}})
+		default: // inside an intercepted (MITM) TLS session
+			ss = append(ss, stream{name: fmt.Sprintf("mutant-%d", i), listener: "mitm", connect: originAddr, end: "fin", chunks: [][]byte{bs}})
+		}
 	}
 	return ss
 }
